@@ -53,13 +53,19 @@ pub enum BvHow {
     PosU32,
     PosU64,
     PosI64,
+    /// `BitVectorMut::with_zeros(z)` for the leading zeros (z a multiple of 512 when there are that
+    /// many), then the remaining bits are pushed / appended
+    ZerosThenPush,
+    /// positions of ones, every position listed twice and in a rotated order (position lists of
+    /// bit vectors may come in any order and repeat)
+    PosDup,
     /// `BitVector::default()` / `T::default()` (empty only)
     Default,
 }
 
 impl BvHow {
     pub fn is_positions(self) -> bool {
-        matches!(self, BvHow::PosUsize | BvHow::PosU32 | BvHow::PosU64 | BvHow::PosI64)
+        matches!(self, BvHow::PosUsize | BvHow::PosU32 | BvHow::PosU64 | BvHow::PosI64 | BvHow::PosDup)
     }
 }
 
@@ -101,6 +107,44 @@ pub fn plain_bv(how: BvHow, bits: &[bool]) -> BitVector {
         BvHow::PosU32 => positions_of(bits).into_iter().map(|x| x as u32).collect(),
         BvHow::PosU64 => positions_of(bits).into_iter().map(|x| x as u64).collect(),
         BvHow::PosI64 => positions_of(bits).into_iter().map(|x| x as i64).collect(),
+        BvHow::ZerosThenPush => {
+            let lead = bits.iter().position(|&b| b).unwrap_or(bits.len());
+            let z = if lead >= 512 { lead / 512 * 512 } else { lead };
+            let mut m = BitVectorMut::with_zeros(z);
+            let rest = &bits[z..];
+            let mut i = 0;
+            while i < rest.len() {
+                // alternate single pushes and 64-bit appends
+                if i % 3 == 0 && i + 64 <= rest.len() {
+                    let mut w = 0u64;
+                    for j in 0..64 {
+                        w |= (rest[i + j] as u64) << j;
+                    }
+                    m.append_bits(w, 64);
+                    i += 64;
+                } else {
+                    m.push(rest[i]);
+                    i += 1;
+                }
+            }
+            m.into()
+        }
+        BvHow::PosDup => {
+            let p = positions_of(bits);
+            let n = p.len();
+            // the maximum first (fixes the length), then every position twice, rotated
+            let mut v: Vec<usize> = Vec::with_capacity(2 * n + 1);
+            if let Some(&mx) = p.last() {
+                v.push(mx);
+                for k in 0..n {
+                    let x = p[(k + n / 3) % n];
+                    v.push(x);
+                    v.push(x);
+                }
+                v.push(mx);
+            }
+            v.into_iter().collect()
+        }
         BvHow::Default => BitVector::default(),
     }
 }
